@@ -399,7 +399,11 @@ func runTiming(r *proxyRig, org *origin, sc scenario, hello []byte) (res timingR
 			}
 			c.mark("doneheadbody")
 			c.inIdle = false
-			c.enterPhase("upstream", tb)
+			if sc.Phase == "body" {
+				c.enterPhase("body", tb) // the whole-request deadline counts from the first byte of the head
+			} else {
+				c.enterPhase("upstream", tb)
+			}
 		case "body":
 			if _, err := c.cur.Write([]byte("hello")); err != nil {
 				return fail("body write", err)
@@ -618,6 +622,48 @@ func genTiming(lim limits, tier string, r *rng.R) []scenario {
 	return out
 }
 
+// genTimingRead: configurations with ReadTimeout > 0 (whole-request deadline) and with the
+// fall-backs IdleTimeout = 0 / ReadHeaderTimeout = 0 -> ReadTimeout.
+func genTimingRead(tier string) []scenario {
+	var out []scenario
+	sts := []stack{stackByName("plain"), stackByName("tls")}
+	if tier == "thorough" {
+		sts = stacks
+	}
+	for li, lim := range []limits{
+		{Idle: 420, Rhdr: 300, Read: 520, TLS: 360, PP: 240},
+		{Idle: 0, Rhdr: 0, Read: 350, TLS: 360, PP: 240},
+	} {
+		wait := max(lim.Idle, lim.Rhdr, lim.Read, lim.TLS, lim.PP) + 450
+		for _, st := range sts {
+			var pre []action
+			if st.PP {
+				pre = append(pre, action{Op: "pp", K: -1})
+			}
+			if st.TLS {
+				pre = append(pre, action{Op: "ltls", K: -1})
+			}
+			with := func(more ...action) []action { return append(append([]action{}, pre...), more...) }
+			add := func(name, phase string, script ...action) {
+				out = append(out, scenario{Name: fmt.Sprintf("%s/rt%d-%s", st.Name, li, name), Stack: st.Name, Script: script, Phase: phase, WaitMs: wait, Lim: lim})
+			}
+			add("idle-first", "idle", with()...)
+			add("head-7", "head", with(action{Op: "head", K: 7})...)
+			add("head-after-idle", "head", with(action{Op: "sleep", D: 150}, action{Op: "head", K: 20})...)
+			// the body never comes: cut at first byte + ReadTimeout
+			add("body-never", "body", with(action{Op: "headbody"})...)
+			add("body-never-after-idle", "body", with(action{Op: "sleep", D: 120}, action{Op: "headbody"})...)
+			// the body comes inside the whole-request deadline: served
+			add("body-in-time", "upstream", with(action{Op: "headbody"}, action{Op: "sleep", D: lim.Read / 2}, action{Op: "body"}, action{Op: "resp"})...)
+			// the origin answers long after the whole-request deadline has expired: still served
+			add("upstream-slow", "upstream", with(action{Op: "head", K: -1, D: lim.Read + 250}, action{Op: "resp"})...)
+			add("upstream-slow-then-second", "upstream", with(action{Op: "head", K: -1, D: lim.Read + 250}, action{Op: "resp"},
+				action{Op: "head", K: -1}, action{Op: "resp"})...)
+		}
+	}
+	return out
+}
+
 // ---------------------------------------------------------------- accept-delay scenarios
 
 type acceptScenario struct {
@@ -813,7 +859,7 @@ func coqEvents(evs []mev) string {
 	return "[" + strings.Join(parts, "; ") + "]"
 }
 
-var phaseN = map[string]int{"pphdr": 0, "ltls": 1, "idle": 2, "head": 3, "upstream": 4, "mpeek": 5, "mtls": 6}
+var phaseN = map[string]int{"pphdr": 0, "ltls": 1, "idle": 2, "head": 3, "upstream": 4, "mpeek": 5, "mtls": 6, "body": 8}
 
 func coqTiming(t timingResult, tol int) string {
 	st := stackByName(t.Sc.Stack)
@@ -905,6 +951,7 @@ func main() {
 		}
 	} else {
 		tsc = genTiming(lim, *tier, r)
+		tsc = append(tsc, genTimingRead(*tier)...)
 		asc = genAccept(lim, *tier)
 		if *tier == "thorough" {
 			for k := 2; k <= 4; k++ {
